@@ -276,6 +276,9 @@ func Replay(raw json.RawMessage) hx.Outcome {
 	if head.Fam == "shell" {
 		return replayShell(raw)
 	}
+	if head.Fam == "formats" {
+		return replayFormats(raw)
+	}
 	if head.Fam == "history" {
 		return replayHistory(raw)
 	}
